@@ -93,6 +93,13 @@ pub fn table() -> Vec<ConstCase> {
     t.push(f32c("ARITH_F", "arithmetic", "0.5 * 4.0 - 0.25", 1.75));
     t.push(f32c("ARITH_F_NEGZERO", "arithmetic", "-0.0 * 1.0", -0.0));
     t.push(f32c("ARITH_BUILTIN", "arithmetic", "max(1.5, 2.5)", 2.5));
+    // ---- identifier styles ("of the same name"): lower case, camelCase, leading k, digits, non-ASCII
+    t.push(u32c("maxLights", "name-style", "16u", 16));
+    t.push(f32c("pi_over_2", "name-style", "1.5707964", 1.5707964));
+    t.push(f32c("kEpsilon", "name-style", "0.00001", 0.00001));
+    t.push(i32c("lod2Bias", "name-style", "-3", -3));
+    t.push(f32c("\u{394}t", "name-style", "0.5", 0.5));
+    t.push(ConstCase { name: "useFog".into(), decl: "const useFog = false;".into(), expect: Some((vec!["bool"], Bits::Bool(false))), form: "name-style" });
     // ---- references
     t.push(i32c("REF_BASE", "literal", "-5", -5));
     t.push(ConstCase { name: "REF_COPY".into(), decl: "const REF_COPY = REF_BASE;".into(), expect: Some((vec!["i32"], Bits::Int(-5))), form: "reference" });
